@@ -51,7 +51,7 @@ func reg(id string, c *propCfg) {
 		c.QuickTimeout = 15 * time.Minute
 	}
 	if c.ThoroughTimeout == 0 {
-		c.ThoroughTimeout = 40 * time.Minute
+		c.ThoroughTimeout = 100 * time.Minute
 	}
 	props[id] = c
 }
@@ -61,7 +61,7 @@ func init() {
 	reg("C02", &propCfg{Test: "TestC02", Quick: 2000, Thorough: 40000})
 	reg("C03", &propCfg{Test: "TestC03", Quick: 960, Thorough: 12000})
 	reg("C04", &propCfg{Test: "TestC04", Quick: 2000, Thorough: 40000})
-	reg("C05", &propCfg{Test: "TestC05", Quick: 200, Thorough: 3200, Level: "fault_enumeration",
+	reg("C05", &propCfg{Test: "TestC05", Quick: 200, Thorough: 2400, Level: "fault_enumeration",
 		Assumptions: []string{"crash model: un-synced writes reach the disk as any subset of 4096-byte blocks, file length anywhere between the synced length and the highest applied block, directory operations ordered and durable; with NoSync process-kill only"}})
 	reg("C06", &propCfg{Test: "TestC06", Quick: 320, Thorough: 1000, Level: "fault_enumeration"})
 	reg("C07", &propCfg{Test: "TestC07", Quick: 1500, Thorough: 24000})
